@@ -60,7 +60,16 @@ def expand (i : Nat) (j : Json) : Except String (List (Nat × Call)) := do
 /-- request: {"seeds":[seed…], "hist":[{"i":inst, "op":…}…]} → outputs of `crunW stepE` (method calls with the
 exact error paths, module re-seeding, pickling) and, per instance, of `crunOneW stepE` on its own calls (the spec side of the frame
 property). -/
-def handle (req : Json) : Except String Json := do
+def tripleToJson (t : Nat × Nat × Nat) : Json := Json.arr #[ofNat t.1, ofNat t.2.1, ofNat t.2.2]
+
+/-- {"reservoir":{"seed":seed,"count":c,"batches":k}} → `reservoirWalk` with the code's batch size (`resBatch`):
+the permutation of the first c items and the triples of uniform numerators Algorithm L is fed with -/
+def handleReservoir (r : Json) : Except String Json := do
+  let s ← parseSeed (← field r "seed")
+  let w := reservoirWalk s (← nat (← field r "count")) resBatch (← nat (← field r "batches"))
+  pure (obj [("perm", ofList ofNat w.1), ("triples", ofList tripleToJson w.2)])
+
+def handleHist (req : Json) : Except String Json := do
   let seeds ← (← arr (← field req "seeds")).mapM parseSeed
   let hist := (← (← arr (← field req "hist")).mapM (fun j => do
     let i ← nat (← field j "i"); expand i j)).flatten
@@ -71,5 +80,10 @@ def handle (req : Json) : Except String Json := do
   pure (obj [("model", ofList (fun (p : Nat × Out) => Json.arr #[ofNat p.1, outToJson p.2]) outs),
              ("alone", ofList (ofList outToJson) alone),
              ("states", ofList ofNat seeds)])
+
+def handle (req : Json) : Except String Json :=
+  match req.getObjVal? "reservoir" with
+  | .ok r => handleReservoir r
+  | .error _ => handleHist req
 
 end Coba.C05.Driver
